@@ -68,7 +68,7 @@ def generate(rng, tier):
                 cases.append(case_of([list(combo)], rng))
                 if k >= 2:
                     cases.append(case_of([list(combo[:1]), list(combo[1:])], rng))
-    n = {"quick": 150, "thorough": 1500, "search": 800}.get(tier, 150)
+    n = {"quick": 400, "thorough": 1500, "search": 800}.get(tier, 150)
     for i in range(n):
         ncalls = rng.choice([1, 1, 2, 3])
         calls = []
@@ -84,7 +84,7 @@ def generate(rng, tier):
             calls.append(c)
         cases.append(case_of(calls, rng, neg=rng.random() < 0.05))
     # tracker level: binding tables, every pair of every call's distance table must be admitted
-    nt, steps = {"quick": (16, 22), "thorough": (300, 45), "search": (80, 30)}.get(tier, (16, 22))
+    nt, steps = {"quick": (40, 22), "thorough": (300, 45), "search": (80, 30)}.get(tier, (16, 22))
     kinds = ["sort", "bsort", "visual", "bvisual"]
     for i in range(nt):
         cons = [(g, rng.choice([0.2, 0.4, 0.8, 1.5])) for g in sorted(rng.sample(range(1, 5), rng.randint(1, 3)))]
@@ -101,7 +101,7 @@ def generate(rng, tier):
             out.append("trk %s 0 1 %d" % ("cmp" if kind.startswith("b") else "cmpids", sc))
         cases.append(out)
     # the distance the constraints are applied to: dist_in_2r = centre distance / sum of the two bounding radii
-    for i in range({"quick": 150, "thorough": 3000, "search": 1000}.get(tier, 150)):
+    for i in range({"quick": 400, "thorough": 3000, "search": 1000}.get(tier, 150)):
         a, b = pair(rng)
         cases.append(["geom inter %s %s" % (utok(*a), utok(*b))])
     return cases
